@@ -369,6 +369,8 @@ def run(tier, seed):
     vm = [('logical', 'time %d on all time %d off all on "A"' % (S + 1, S + 2), [1, 2], [[1], [1, 2], [1, 2, 2]], 'two-delays'),
           ('raw', 'units raw time %d on all time %d off all' % (S + 1, S + 2), [1, 2], [[1], [1, 2]], 'raw-ms'),
           ('logical', 'time %d on "A" and "B" off "C"' % (S + 1), [1], [[1], [1], [1, 1]], 'and-shares-delay'),
+          ('rgb', 'units rgb time %d on all time %d off all on "A"' % (S + 1, S + 2), [1, 2], [[1], [1, 2], [1, 2, 2]], 'rgb-seconds'),
+          ('rgb', 'time %d units rgb on all units logical off all' % (S + 1), [1], [[1], [1, 1]], 'switch-to-rgb-keeps-delay'),
           ('logical', 'time %d repeat 2 begin on all end' % (S + 1), [1], [[1], [1, 1]], 'loop'),
           ('logical', 'time %d on all units raw off all' % (S + 1), [1], [[1], [1, 1]], 'switch-to-raw-keeps-delay')]
     for mode, text, sids, due, tag in vm:
